@@ -656,7 +656,7 @@ def run_workers(ctx, jobs, thread_counts, repeats=1, timeout=240):
 def kernel_jobs(rng, big=False):
     """Jobs that exercise the prange kernels (and the formerly parallel D-iteration sweep)."""
     jobs = []
-    sizes = [(40, 0.25), (80, 0.15)] + ([(200, 0.08)] if big else [])
+    sizes = [(40, 0.25), (80, 0.15)] + ([(200, 0.08), (500, 0.03)] if big else [])
     for n, p in sizes:
         es = _connected_undirected(rng, n, p)
         m = graphs.csr_from_edges(n, es)
@@ -852,7 +852,7 @@ def run(ctx):
             cases += cs
             ctx.count('corpus')
     # generated histories
-    per_class = 16 if quick else 150
+    per_class = 16 if quick else 300
     sweep_jobs, sweep_inproc = [], {}
     for name in names:
         k = per_class if name not in SLOW_CLASSES else max(4, per_class // SLOW_CLASSES[name])
@@ -888,10 +888,10 @@ def run(ctx):
     fn_inproc = {}
     for i, j in enumerate(mj):
         fn_inproc[len(sweep_jobs) + i] = W.run_job(j)
-    bad, res = sweep(ctx, sweep_jobs, mj + kj, tc, 1 if quick else 2, {**sweep_inproc, **fn_inproc})
+    bad, res = sweep(ctx, sweep_jobs, mj + kj, tc, 1 if quick else 3, {**sweep_inproc, **fn_inproc})
     ctx.extra['thread_counts'] = tc
     ctx.extra['sweep_jobs'] = len(sweep_jobs) + len(mj) + len(kj)
-    ctx.impl_traces = ctx.evaluations + (len(sweep_jobs) + len(mj) + len(kj)) * len(tc) * (1 if quick else 2)
+    ctx.impl_traces = ctx.evaluations + (len(sweep_jobs) + len(mj) + len(kj)) * len(tc) * (1 if quick else 3)
     report_sweep(ctx, bad)
     phases['sweep'] = round(time.time() - t0, 1)
     ctx.exhaustive = False
